@@ -3,8 +3,8 @@ From Coq Require Import List.
 From DV Require Import Engine.Lifecycle.
 Import ListNotations.
 Theorem C12_multi_module_refuted_handled :
-  notes (run_process LRunAnalysis w_handled) = [NBegin 0; NEv 0; NEv 0; NEv 0; NUncaught 0; NEnd 0; NDump 0; NEv 0].
+  notes (run_process LRunAnalysis w_handled) = [NBegin 0; NEv 0; NEv 0; NRe 0; NUncaught 0; NEnd 0; NDump 0; NEv 0].
 Proof. exact multi_module_refuted_handled. Qed.
 Theorem C12_multi_module_refuted_twice :
-  notes (run_process LRunAnalysis w_twice) = [NBegin 0; NEv 0; NUncaught 0; NEnd 0; NDump 0; NEv 0; NUncaught 0].
+  notes (run_process LRunAnalysis w_twice) = [NBegin 0; NRe 0; NUncaught 0; NEnd 0; NDump 0; NRe 0; NUncaught 0].
 Proof. exact multi_module_refuted_twice. Qed.
